@@ -5,6 +5,7 @@ package main
 import (
 	"fmt"
 	"os"
+	"os/exec"
 	"sort"
 	"strings"
 	"sync"
@@ -16,23 +17,81 @@ type PathSolver struct {
 	s       *Solver
 	pr      *Printer
 	buf     strings.Builder
-	pcN     int // number of pc conjuncts already sent
+	base    strings.Builder // everything asserted/defined at base level on this path
+	pcN     int             // number of pc conjuncts already sent
 	queries int
+	Fallbacks, FallbackSolved int
 }
 
 func (ps *PathSolver) begin() {
 	ps.s.Reset()
 	ps.buf.Reset()
+	ps.base.Reset()
 	ps.pr = NewPrinter(&ps.buf)
 	ps.pcN = 0
 }
 
+// flush sends pending base-level text (declarations, definitions, pc asserts)
 func (ps *PathSolver) flush() {
 	if ps.buf.Len() > 0 {
 		ps.s.Send(ps.buf.String())
+		ps.base.WriteString(ps.buf.String())
 		ps.buf.Reset()
 	}
 }
+
+// fallback: one-shot cvc5 with the integer encoding of bit-vectors, which
+// decides multiply/divide-by-constant queries that bit-blasting does not.
+func (ps *PathSolver) fallback(query string, vars []*Term) (string, map[string]uint64) {
+	ps.Fallbacks++
+	atomic.AddInt64(&fallbackTotal, 1)
+	f, err := os.CreateTemp("", "gosym-fb-*.smt2")
+	if err != nil {
+		return "unknown", nil
+	}
+	defer os.Remove(f.Name())
+	var sb strings.Builder
+	sb.WriteString("(set-logic ALL)\n(set-option :produce-models true)\n")
+	sb.WriteString(ps.base.String())
+	sb.WriteString(query)
+	sb.WriteString("(check-sat)\n")
+	if len(vars) > 0 {
+		sb.WriteString("(get-value (")
+		for _, v := range vars {
+			sb.WriteString(v.Name + " ")
+		}
+		sb.WriteString("))\n")
+	}
+	f.WriteString(sb.String())
+	f.Close()
+	out, _ := exec.Command("cvc5", "--solve-bv-as-int=sum", "--tlimit=60000", "--fp-exp", f.Name()).Output()
+	txt := strings.TrimSpace(string(out))
+	lines := strings.SplitN(txt, "\n", 2)
+	if len(lines) == 0 {
+		return "unknown", nil
+	}
+	res := strings.TrimSpace(lines[0])
+	if res != "sat" && res != "unsat" {
+		return "unknown", nil
+	}
+	ps.FallbackSolved++
+	atomic.AddInt64(&fallbackSolved, 1)
+	var m map[string]uint64
+	if res == "sat" && len(lines) > 1 && len(vars) > 0 {
+		m = map[string]uint64{}
+		toks := tokenize(lines[1])
+		pos := 0
+		node := parseSexp(toks, &pos)
+		for _, pair := range node.kids {
+			if len(pair.kids) == 2 {
+				m[pair.kids[0].atom] = sexpValue(pair.kids[1])
+			}
+		}
+	}
+	return res, m
+}
+
+var fallbackTotal, fallbackSolved int64
 
 type inputRec struct {
 	Name string
@@ -110,12 +169,20 @@ func (x *Exec) checkSat(c *Term) string {
 	ps := x.sv
 	x.sendPC()
 	r := ps.pr.Ref(c)
-	fmt.Fprintf(&ps.buf, "(push 1)\n(assert %s)\n", r)
 	ps.flush()
+	ps.s.Send(fmt.Sprintf("(push 1)\n(assert %s)\n", r))
 	res := ps.s.CheckSat()
 	x.res.Queries++
 	if res == "unknown" {
-		x.res.Unknown++
+		ps.s.Send("(pop 1)\n")
+		fr, fm := ps.fallback(fmt.Sprintf("(assert %s)\n", r), x.allVars())
+		if fr == "unknown" {
+			x.res.Unknown++
+		} else if fr == "sat" && fm != nil && x.H.UseModelCache {
+			x.model = fm
+			x.modelPC = len(x.pc)
+		}
+		return fr
 	}
 	if res == "sat" && x.H.UseModelCache {
 		if m, err := ps.s.GetValues(x.allVars()); err == nil {
@@ -140,15 +207,20 @@ func (x *Exec) allVars() []*Term {
 func (x *Exec) getModel(c *Term) (map[string]uint64, string) {
 	ps := x.sv
 	x.sendPC()
+	q := ""
 	if c != nil {
 		r := ps.pr.Ref(c)
-		fmt.Fprintf(&ps.buf, "(push 1)\n(assert %s)\n", r)
-	} else {
-		fmt.Fprintf(&ps.buf, "(push 1)\n")
+		q = fmt.Sprintf("(assert %s)\n", r)
 	}
 	ps.flush()
+	ps.s.Send("(push 1)\n" + q)
 	res := ps.s.CheckSat()
 	x.res.Queries++
+	if res == "unknown" {
+		ps.s.Send("(pop 1)\n")
+		fr, fm := ps.fallback(q, x.allVars())
+		return fm, fr
+	}
 	var m map[string]uint64
 	if res == "sat" {
 		var err error
